@@ -390,6 +390,98 @@ def bsvReplicateAt (filt mc pol : Bool) (nboot size : Nat) (want : List (Nat × 
 def bsvMaskAt (filt mc pol : Bool) (want : List (Nat × Nat)) (popIds : List Nat) (idx : List Nat) : Bool :=
   maskAt (bsvBootPolarized filt mc pol) (bsvBootMaskCorners filt mc pol) (bsvProjections want popIds) idx
 
+/-! ### `Spectrum.from_data_dict_corrected`: the spectrum corrected for ancestral misidentification (Hernandez et al. 2007)
+
+    The generated pieces: which SNPs `_data_by_tri` keeps (`triBiallelicLen`, `triSkip`), which allele is the derived one
+    (`triDerivedIfA1Outgroup/…A2…`), the value read from the table (`corrFuxOfFile`), the combination of a class with the class it would
+    be mistaken for (`corrRux`, `corrRxuInner`, `corrAcc`), the class spectra (`corrClassPolarized`), the `force_pos` step (`corrNeg`). -/
+
+/-- a dictionary entry with the flanking-base contexts: `context` = i0 · i2 (the middle base is not looked at), `outgroup_context` =
+    o0 o1 o2; `hasCtx` = both keys present -/
+structure TriSnp where
+  snp : Snp
+  hasCtx : Bool
+  i0 : Nat
+  i2 : Nat
+  o0 : Nat
+  o1 : Nat
+  o2 : Nat
+deriving Repr, DecidableEq
+
+/-- a class of SNPs: ((flank, derived allele, flank), outgroup base) -/
+abbrev TriKey := (Nat × Nat × Nat) × Nat
+
+inductive TriRes where
+  | skip
+  | keep (k : TriKey)
+  | valueError          -- the middle base of the outgroup context is not the recorded outgroup allele
+  | keyError            -- no 'outgroup_allele' key
+deriving Repr, DecidableEq
+
+/-- the derived allele `_data_by_tri` writes into the class key -/
+def triDerived (t : TriSnp) : Nat :=
+  if t.snp.a1 == t.o1 then (if triDerivedIfA1Outgroup = 1 then t.snp.a1 else t.snp.a2)
+  else (if triDerivedIfA2Outgroup = 1 then t.snp.a1 else t.snp.a2)
+
+/-- one iteration of the loop of `_data_by_tri` -/
+def triClassify (t : TriSnp) : TriRes :=
+  if t.snp.nseg ≠ triBiallelicLen then .skip
+  else if !t.hasCtx then .skip
+  else match t.snp.out with
+    | none => .keyError
+    | some og0 =>
+      if t.o1 ≠ og0 then .valueError
+      else if triSkip (t.o0 == t.i0) (t.o2 == t.i2) (isBase t.i0) (isBase t.i2) (t.o1 == t.snp.a1 || t.o1 == t.snp.a2)
+                (isBase t.snp.a1) (isBase t.snp.a2) then .skip
+      else .keep ((t.i0, triDerived t, t.i2), t.o1)
+
+/-- `result.setdefault(key, {}); result[key][snp] = snp_info` (classes in first-appearance order, SNPs in order) -/
+def groupInsert (k : TriKey) (s : Snp) : List (TriKey × List Snp) → List (TriKey × List Snp)
+  | [] => [(k, [s])]
+  | (k', l) :: rest => if k' = k then (k', l ++ [s]) :: rest else (k', l) :: groupInsert k s rest
+
+/-- `_data_by_tri`; `none` = an exception (ValueError / KeyError) -/
+def byContext : List TriSnp → List (TriKey × List Snp) → Option (List (TriKey × List Snp))
+  | [], acc => some acc
+  | t :: rest, acc =>
+    match triClassify t with
+    | .skip => byContext rest acc
+    | .keep k => byContext rest (groupInsert k t.snp acc)
+    | _ => none
+
+/-- the class a class would be mistaken for: derived allele and outgroup base exchanged -/
+def misKey (k : TriKey) : TriKey := ((k.1.1, k.2, k.1.2.2), k.1.2.1)
+
+/-- `Rux + Rxu` for one pair of classes at the entry `idx` (`Nxu_rev` and the outer `reverse_array` are index mirrorings) -/
+def corrPairAt (proj : List Nat) (fux fxu : Rat) (nomis mis : List Snp) (idx : List Nat) : Rat :=
+  let nux := fun i => spectrumAt corrClassPolarized proj nomis i
+  let nxuRev := fun i => spectrumAt corrClassPolarized proj mis (mirror proj i)
+  corrAcc (corrRux fux fxu (nux idx) (nxuRev idx))
+          (corrRxuInner fux fxu (nux (mirror proj idx)) (nxuRev (mirror proj idx)))
+
+/-- the `while by_context` loop: the last class is popped, then the class it would be mistaken for (empty if absent) -/
+def corrLoop (proj : List Nat) (F : TriKey → Rat) : Nat → List (TriKey × List Snp) → (List Nat → Rat) → (List Nat → Rat)
+  | 0, _, acc => acc
+  | fuel+1, l, acc =>
+    match l.getLast? with
+    | none => acc
+    | some (k, nomis) =>
+      let rest := l.dropLast
+      let mk := misKey k
+      let mis := ((rest.find? fun e => e.1 == mk).map (·.2)).getD []
+      let rest' := rest.filter fun e => e.1 != mk
+      corrLoop proj F fuel rest' fun idx => acc idx + corrPairAt proj (F k) (F mk) nomis mis idx
+
+/-- `force_pos`: negative entries are removed and added to the mirrored entry -/
+def forcePosAt (proj : List Nat) (u : List Nat → Rat) (idx : List Nat) : Rat :=
+  u idx - corrNeg (u idx) + corrNeg (u (mirror proj idx))
+
+/-- data of `Spectrum.from_data_dict_corrected(dd, pop_ids, proj, table, force_pos)`; `F` = the table as read (`fux_dict`) -/
+def correctedAt (proj : List Nat) (F : TriKey → Rat) (forcePos : Bool) (ts : List TriSnp) : Option (List Nat → Rat) :=
+  (byContext ts []).map fun groups =>
+    let u := corrLoop proj F groups.length groups fun _ => 0
+    if forcePos then forcePosAt proj u else u
+
 /-! ### statistics from a one-dimensional spectrum `f : Nat → Rat` with sample size `n` -/
 
 /-- `S()`: mask the corners, sum -/
